@@ -37,6 +37,10 @@ def gen_uint128(tmp):
                "sc_uint128_sub_inplace", "sc_uint128_bitwise_or_inplace", "sc_uint128_bitwise_and_inplace"]:
         t, i = c2g.translate_function(c2g.find_function(objs, fn), structs=STRUCTS)
         g.add(t, i)
+    # the header allows a == b for the in-place functions: the same source translated with b aliased to a
+    for fn in ["sc_uint128_add_inplace", "sc_uint128_sub_inplace", "sc_uint128_bitwise_or_inplace", "sc_uint128_bitwise_and_inplace"]:
+        t, i = c2g.translate_function(c2g.find_function(objs, fn), gname=fn + "_aliased", structs=STRUCTS, alias={"b": "a"})
+        g.add(t, i)
     return g, [f]
 
 
